@@ -1,30 +1,9 @@
 package db19
 
 import (
-	"encoding/binary"
-
 	"github.com/apmckinlay/gsuneido/db19/stor"
-	"github.com/apmckinlay/gsuneido/util/cksum"
 	rt "github.com/apmckinlay/gsuneido/zzverifrt"
 )
-
-// vwriteStateAt writes a state record exactly as writeState does, but with a given time instead
-// of the wall clock (metadata offsets 0 = empty metadata)
-func vwriteStateAt(store *stor.Stor, t int64) uint64 {
-	off, buf := store.Alloc(stateLen)
-	copy(buf, magic1)
-	i := len(magic1)
-	binary.BigEndian.PutUint64(buf[i:], uint64(t))
-	i += dateSize
-	stor.WriteSmallOffset(buf[i:], 0)
-	i += stor.SmallOffsetLen
-	stor.WriteSmallOffset(buf[i:], 0)
-	i += stor.SmallOffsetLen
-	i += cksum.Len
-	cksum.Update(buf[:i])
-	copy(buf[i:], magic2)
-	return off
-}
 
 // C19: a store holding 1..3 persisted states with arbitrary increasing times (and other data
 // between them). For an arbitrary requested time, stateAsof returns the newest state at or before
